@@ -38,7 +38,7 @@ fn exec_case(case: &Value, dom_max: usize) -> Value {
             Some(i) => i,
             None => {
                 htmls.push(html.clone());
-                doms.push(if want_dom { dom::abstract_dom(&html, dom_max).unwrap_or(json!("big")) } else { json!("none") });
+                doms.push(if want_dom { dom::abstract_dom(&html, dom_max).unwrap_or(json!([{"k": "big"}])) } else { json!([{"k": "none"}]) });
                 htmls.len() - 1
             }
         };
